@@ -6,6 +6,7 @@ import (
 	"log/slog"
 	"net/http"
 	"net/textproto"
+	"slices"
 	"strconv"
 	"strings"
 	"time"
@@ -235,6 +236,10 @@ func (w *responseWriter) writeHeader(status int) error {
 		}
 		// Ignore "Trailer:" prefixed headers
 		if strings.HasPrefix(k, http.TrailerPrefix) {
+			continue
+		}
+		// connection-specific header fields must not be sent on HTTP/3, see section 4.2 of RFC 9114
+		if slices.Contains(invalidHeaderFields[:], strings.ToLower(k)) {
 			continue
 		}
 		for index := range v {
